@@ -106,7 +106,10 @@ class InsecureHomeKitProtocol(asyncio.Protocol):
         self.transport = transport
 
     def connection_lost(self, exception: Exception) -> None:
-        self.connection._connection_lost(exception)
+        # Only losing the connection that is in use may tear it down and reconnect;
+        # an abandoned connection going away must not disturb the current one.
+        if self.connection.protocol is self:
+            self.connection._connection_lost(exception)
         self._cancel_pending_requests()
 
     def _handle_timeout(self, fut: asyncio.Future[Any]) -> None:
